@@ -395,8 +395,11 @@ def inverse_mirror(ctx: Ctx, fwd, inv):
 
 
 def _inverse_mirror(ctx: Ctx, fwd, inv):
+    from ..inline import with_inlined
+
     res = ctx.res
     key = f"{fwd.name} <-> {inv.name}"
+    fwd, inv = with_inlined(ctx.repo, fwd), with_inlined(ctx.repo, inv)  # the bookkeeping may live in a private helper
     # forward: return reshape(moveaxis(t, S, D), ...)
     frets = [r for r in own_scope_nodes(fwd.node) if isinstance(r, ast.Return)]
     irets = [r for r in own_scope_nodes(inv.node) if isinstance(r, ast.Return)]
